@@ -18,7 +18,7 @@ var c07Alphabet = []string{"a", "Z", "0", "_", "-", ".", ":", "/", "=", " ", "é
 func init() { register("C07", checkC07) }
 
 type c07Stats struct {
-	n, qualified, reachParts int64
+	n, qualified, reachParts, long int64
 }
 
 func c07One(cs *Case, s string, st *c07Stats) {
@@ -125,7 +125,7 @@ func genValidPart(r *rand.Rand, dev bool, maxLen int) string {
 }
 
 func checkC07(c *Ctx) {
-	c.Rule = "bounded-exhaustive: every string of length <= L over the 13-symbol alphabet {a Z 0 _ - . : / = space é \\xff \\x00} (L=5 quick, 6 thorough), every Unicode code point substituted at the first, a middle and the last position of each part of a skeleton name, every byte 0..255 substituted at every position of 3-part skeletons, plus seeded valid names with single mutations; non-trivial/distinct = distinct strings that contain '/' followed later by '=' (so that per-part validation, not the splitter, decides)"
+	c.Rule = "bounded-exhaustive: every string of length <= L over the 13-symbol alphabet {a Z 0 _ - . : / = space é \\xff \\x00} (L=5 quick, 6 thorough), every Unicode code point substituted at the first, a middle and the last position of each part of a skeleton name, every byte 0..255 substituted at every position of 3-part skeletons, plus seeded valid names (parts of up to 12 bytes, now and then up to 70000) with single mutations; non-trivial/distinct = distinct strings that contain '/' followed later by '=' (so that per-part validation, not the splitter, decides)"
 	c.Assume("the grammar recognisers in model_grammar.go transcribe the property statement", "strings longer than the bound are only sampled")
 	L := c.pick(5, 6)
 	var total c07Stats
@@ -134,6 +134,7 @@ func checkC07(c *Ctx) {
 		total.n += st.n
 		total.qualified += st.qualified
 		total.reachParts += st.reachParts
+		total.long += st.long
 		c.mu.Unlock()
 	}
 	// exhaustive part: one case per 2-symbol prefix (plus the short strings)
@@ -214,7 +215,13 @@ func checkC07(c *Ctx) {
 		var st c07Stats
 		r := cs.R
 		for k := 0; k < 1000; k++ {
-			v, cl, n := genValidPart(r, false, 12), genValidPart(r, false, 12), genValidPart(r, true, 12)
+			ml := 12
+			if chance(r, 4) {
+				// long names: no length at which a part, or the input handed back on failure, may be cut
+				ml = []int{70, 300, 1100, 70000}[r.Intn(4)]
+				st.long++
+			}
+			v, cl, n := genValidPart(r, false, ml), genValidPart(r, false, ml), genValidPart(r, true, ml)
 			s := v + "/" + cl + "=" + n
 			c07One(cs, s, &st)
 			// composing valid parts and parsing returns the parts
@@ -248,6 +255,7 @@ func checkC07(c *Ctx) {
 	c.evaluations = total.n
 	c.counters["strings_checked"] = total.n
 	c.counters["strings_qualified"] = total.qualified
+	c.counters["names_longer_than_64_bytes_with_mutations"] = total.long
 	c.counters["strings_reaching_part_validation"] = total.reachParts
 	// all enumerated strings are distinct by construction; the seeded ones may repeat, so count conservatively
 	c.mu.Unlock()
@@ -259,5 +267,6 @@ func checkC07(c *Ctx) {
 	c.Sample(5, map[string]any{"input": "a/b=c:", "expected": "rejected: name must end with a letter or digit; failure returns (\"\",\"\",input)"})
 	c.Sample(5, map[string]any{"input": "é/a=0", "expected": "rejected: non-ASCII byte in vendor"})
 	c.Floor("strings_qualified", 50)
+	c.Floor("names_longer_than_64_bytes_with_mutations", 1000)
 	c.Floor("code_points_swept", 1000000)
 }
